@@ -8,6 +8,8 @@ package checks
 //     two transactions that differ in an executed field never share a pre-image.
 
 import (
+	"bytes"
+	"encoding/hex"
 	"encoding/json"
 	"fmt"
 	"math/big"
@@ -345,7 +347,7 @@ func (c *c03) Meta() engine.Meta {
 		Category:  "model_checking",
 		LevelName: "1 = single mutations / pre-image products, 2 = pairs of mutations of different fields, 3 = triples (thorough)",
 		Technique: "bounded-exhaustive mutation enumeration of signed transactions on the real application (twin oracle) + exhaustive bounded injectivity check of the signing pre-image",
-		Rule: "(a) 10 valid signed base transactions (all 8 types, deployment, call, transfer to a contract) at a state where each of them succeeds; mutation operators on the DECODED value of every field with the signature KEPT: version, time (+-1, 0, sign flip, +2^32, +2^63), nonce, claimed sender (5 other accounts, with their current nonce), receiver, amount (+-1, +1R, +2^64, +2^128, 0, x2), gas, gas price, type (relabel to each of the 8 types), every payload sub-field incl. the narrowed ones (heights +1 / +2^31 / +2^32 / +2^40 / +2^62, option type +2^16, options changed / appended / swapped, vote choice / proposal, call data, name / url boundary shift), the signature itself (every byte, truncation, extension, v+27, a signature of another transaction of the same sender) and the chain id (application initialised with another id or with a mixed-case id; transaction signed for another id and for 11 NEAR variants of the application's own id: other case, leading / trailing blank, newline, tab, NUL, shortened, extended, doubled): all single mutations and all pairs of mutations of two different fields (thorough: also all triples over three different non-signature fields). The node has seen the genuine transaction in a mempool check before the mutants arrive, and a second pass re-uses the genuine signature on altered copies with the next nonce after the genuine transaction was executed. Oracle: the mutant's DeliverTx code is non-zero, the unmodified transaction still succeeds afterwards, and the complete state equals the twin that never saw the mutants. " +
+		Rule: "(a) 10 valid signed base transactions (all 8 types, deployment, call, transfer to a contract) at a state where each of them succeeds; mutation operators on the DECODED value of every field with the signature KEPT: version, time (+-1, 0, sign flip, +2^32, +2^63), nonce, claimed sender (5 other accounts, with their current nonce), receiver, amount (+-1, +1R, +2^64, +2^128, 0, x2), gas, gas price, type (relabel to each of the 8 types), every payload sub-field incl. the narrowed ones (heights +1 / +2^31 / +2^32 / +2^40 / +2^62, option type +2^16, options changed / appended / swapped, vote choice / proposal, call data, name / url boundary shift), the signature itself (every byte, truncation, extension, v+27, a signature of another transaction of the same sender) and the chain id (application initialised with another id or with a mixed-case id; transaction signed for another id and for 11 NEAR variants of the application's own id: other case, leading / trailing blank, newline, tab, NUL, shortened, extended, doubled): all single mutations and all pairs of mutations of two different fields (thorough: also all triples over three different non-signature fields). The node has seen the genuine transaction in a mempool check before the mutants arrive, and a second pass re-uses the genuine signature on altered copies with the next nonce after the genuine transaction was executed. Separately, unsigned material is ATTACHED on the wire to signed transactions of payload-less types (contract call data / setdoc / withdraw / unstaking payload objects next to a transfer to a call-data-sensitive contract, a plain transfer, a delegation, a self-stake): such a copy is either refused or has exactly the genuine transaction's effect on the complete state. Oracle: the mutant's DeliverTx code is non-zero, the unmodified transaction still succeeds afterwards, and the complete state equals the twin that never saw the mutants. " +
 			"(b) for every transaction type the full product of per-field value menus (values chosen to collide under any 32/64-bit narrowing: x, x+1, x+2^31, x+2^32, x+2^40, negative / wrapped): no two transactions that differ in an executed field share the signing pre-image (hash-set based). " +
 			"distinct_nontrivial = cases in which at least one mutant was rejected BY THE SIGNATURE CHECK (not by an earlier validation).",
 		Assumptions: []string{
@@ -362,6 +364,7 @@ func (c *c03) Prepare(tier string, seed int64) error {
 		c.cases = append(c.cases, c03Case{Mode: "mutate", Base: b, Only: -1, Lv: 1})
 	}
 	c.cases = append(c.cases, c03Case{Mode: "chain", Only: -1, Lv: 1})
+	c.cases = append(c.cases, c03Case{Mode: "extras", Only: -1, Lv: 1})
 	for b := 0; b < 8; b++ {
 		c.cases = append(c.cases, c03Case{Mode: "preimage", Base: b, Only: -1, Lv: 1})
 	}
@@ -401,6 +404,8 @@ func (c *c03) RunDesc(desc json.RawMessage) engine.Result {
 		return c.preimage(cs, desc)
 	case "chain":
 		return c.chainID(cs, desc)
+	case "extras":
+		return c.extras(cs, desc)
 	}
 	res := engine.Result{}
 	base := c03Bases()[cs.Base]
@@ -657,6 +662,118 @@ func (c *c03) chainID(cs c03Case, desc json.RawMessage) engine.Result {
 	res.Nontrivial = res.Counters["mutants_rejected_by_signature"] > 0
 	res.Outcome = "chain"
 	res.States = append(res.States, "chain")
+	return res
+}
+
+// extras: unsigned material ATTACHED on the wire to a signed transaction of a type that carries no payload (a payload
+// object of some type put next to a transfer / staking envelope; the signature is kept). Either the node refuses the
+// copy, or the copy has exactly the effect of the genuine transaction: the complete state two blocks later equals the
+// twin's that executed the genuine one. The receiving contract's behaviour depends on its call data (it stores
+// CALLDATASIZE and the first call-data word), so executed extra bytes cannot hide.
+func (c *c03) extras(cs c03Case, desc json.RawMessage) engine.Result {
+	res := engine.Result{}
+	// runtime: CALLDATASIZE -> slot 1 ; CALLDATALOAD(0) -> slot 2 ; STOP
+	probe := hex.EncodeToString(initCodeFor(hx2("36600155 600035600255 00")))
+	hist := sim.History{Gen: genesis3(), Blocks: []sim.Block{blk(), blk(deploy("U0", probe, "0")), blk(stk("U0", "V1", "2R"))}}
+	bases := []sim.TxSpec{
+		with(tr("U1", "contract:0", "5"), func(s *sim.TxSpec) { s.Gas = 200000 }, "transfer to the probing contract"),
+		tr("U1", "W", "1R"),
+		stk("U1", "V1", "1R"),
+		stk("W", "W", "3R"),
+	}
+	attach := []struct {
+		name string
+		p    func() ctrlertypes.ITrxPayload
+	}{
+		{"contract call data", func() ctrlertypes.ITrxPayload {
+			return &ctrlertypes.TrxPayloadContract{Data: bytes.Repeat([]byte{0xa7}, 32)}
+		}},
+		{"setdoc payload", func() ctrlertypes.ITrxPayload { return &ctrlertypes.TrxPayloadSetDoc{Name: "mallory", URL: "http://m"} }},
+		{"withdraw payload", func() ctrlertypes.ITrxPayload { return &ctrlertypes.TrxPayloadWithdraw{ReqAmt: uint256.NewInt(7)} }},
+		{"unstaking payload", func() ctrlertypes.ITrxPayload { return &ctrlertypes.TrxPayloadUnstaking{TxHash: make([]byte, 32)} }},
+	}
+	for bi, b := range bases {
+		// twin: the genuine transaction
+		ref := sim.Run(tmpRoot(), hist, &sim.Hooks{NoStates: true})
+		if ref.Err != "" || ref.Chain.Dead {
+			res.Err = "prepare: " + ref.Err
+			ref.Cleanup()
+			return res
+		}
+		ref.Chain.BeginBlock(sim.BlockOpts{Proposer: "V0"})
+		g := ref.Chain.Deliver(b, nil)
+		ref.Chain.EndBlock()
+		ref.Chain.Commit()
+		want, _ := ref.Chain.DumpState(0, ref.Chain.Deployed)
+		ref.Cleanup()
+		if g.Code != 0 {
+			res.Err = fmt.Sprintf("extras: the genuine <%s> fails: %s", b.String(), firstLineOf(g.Rec.Log))
+			return res
+		}
+		for ai, a := range attach {
+			if cs.Only >= 0 && cs.Only != bi*10+ai {
+				continue
+			}
+			run := sim.Run(tmpRoot(), hist, &sim.Hooks{NoStates: true})
+			ch := run.Chain
+			ch.BeginBlock(sim.BlockOpts{Proposer: "V0"})
+			tx := ch.Build(b, ch.EnvFor(b, nil))
+			tx.Payload = a.p()
+			bz := encodeTx(tx)
+			if bz == nil {
+				res.Count("extras_not_encodable", 1)
+				run.Cleanup()
+				continue
+			}
+			rec, resp := ch.DeliverRaw(bz, "EXTRA "+a.name)
+			res.Transitions++
+			res.Count("extras", 1)
+			if rec.Panic != "" {
+				res.Count("mutant_panicked(C09 matter)", 1)
+				run.Cleanup()
+				continue
+			}
+			if resp.Code != 0 {
+				res.Count("extras_refused", 1)
+				run.Cleanup()
+				continue
+			}
+			res.Count("extras_accepted(effect compared)", 1)
+			ch.EndBlock()
+			ch.Commit()
+			got, _ := ch.DumpState(0, ch.Deployed)
+			// the id of a stake is the hash of the WIRE bytes, which differ by construction (the attachment is part of them);
+			// the hash is not one of the fields the statement lists - stakes are compared without it (noted in DESIGN §11.4)
+			noIDs := func(st *sim.State) *sim.State {
+				if st == nil {
+					return nil
+				}
+				n := *st
+				n.Delegatees = map[string]sim.DelegSt{}
+				for k, d := range st.Delegatees {
+					dd := d
+					dd.Stakes = append([]sim.StakeSt{}, d.Stakes...)
+					for i := range dd.Stakes {
+						dd.Stakes[i].TxHash = ""
+					}
+					n.Delegatees[k] = dd
+				}
+				return &n
+			}
+			got, want := noIDs(got), noIDs(want)
+			if got != nil && want != nil && got.JSON() != want.JSON() {
+				one := cs
+				one.Only = bi*10 + ai
+				d := sim.DiffStates(got, want)
+				res.Violations = append(res.Violations, engine.Violation{Property: "C03", Kind: "unsigned-attachment-executed", Site: b.Type + ": " + a.name,
+					Detail: fmt.Sprintf("<%s> with an unsigned %s attached (signature kept) was accepted and its effect differs from the genuine transaction's (copy != genuine): %v", b.String(), a.name, tailOf(d, 6)), Case: sim.MustJSON(one)})
+			}
+			run.Cleanup()
+		}
+	}
+	res.Nontrivial = res.Counters["extras"] > 0
+	res.Outcome = "extras"
+	res.States = append(res.States, "extras")
 	return res
 }
 
